@@ -118,6 +118,8 @@ Definition pend_unref (d : hstate) (h : N) : bool :=
 Definition spec09_step (cfg : config) (o : hop) (outs : list out) (p d : hstate) : bool :=
   (* Hosts[a] = h -> a is one of h's addresses and none of mine *)
   forallb (fun e => mem (fst e) (addrs_of d (snd e)) && negb (is_self cfg (fst e))) (hosts (hm d)) &&
+  (* no established tunnel's recorded addresses contain one of mine, at any position *)
+  forallb (fun h => negb (has_self cfg (addrs_of d h))) (live_ids d) &&
   (* a tunnel keeps the addresses of the certificate it was created with; a new tunnel comes from the
      handshake that completed in this step and carries exactly its certificate addresses *)
   forallb (fun h =>
